@@ -363,3 +363,16 @@ package identity
 //@     invariant [j1] forall k int :: { i.versions[k] } forall key string :: { (key in i.versions[k].metadata) } 0 <= k && k <= rangeindex1 && i.versions[k].metadata != nil && (key in i.versions[k].metadata) && (forall j int :: { i.versions[j] } 0 <= j && j < k ==> !(i.versions[j].metadata != nil && (key in i.versions[j].metadata))) ==> (key in metadata) && metadata[key] == i.versions[k].metadata[key]
 //@     invariant [j2] forall key string :: { iterseen[key] } iterseen[key] && (forall j int :: { i.versions[j] } 0 <= j && j <= rangeindex1 ==> !(i.versions[j].metadata != nil && (key in i.versions[j].metadata))) ==> (key in metadata) && metadata[key] == version.metadata[key]
 //@     invariant [j3] forall key string :: { (key in metadata) } (key in metadata) ==> (exists k int :: { i.versions[k] } 0 <= k && k <= rangeindex1 && i.versions[k].metadata != nil && (key in i.versions[k].metadata)) || (iterseen[key] && version.metadata != nil && (key in version.metadata))
+
+// A pull of the identities is a fetch followed by a merge - whatever the fetch answers (C02).
+//@ ghost var mergeRuns int
+//@ func MergeAll
+//@   trusted
+//@   modifies mergeRuns
+//@   defines [counted] mergeRuns == old(mergeRuns) + 1
+//@ func Pull
+//@   props C02
+//@   stable mergeRuns
+//@   ensures [a-successful-pull-has-merged] result == nil ==> mergeRuns == old(mergeRuns) + 1
+//@   loop 1
+//@     invariant mergeRuns == old(mergeRuns) + 1
